@@ -200,6 +200,11 @@ class Kernel:
                 raise r
             return r
         if p in self.files:
+            data = self.files[p]
+            if callable(data):
+                data = data()
+            if isinstance(data, BaseException):
+                raise data
             return StatResult()
         if p in self.dirs:
             return StatResult(_stat.S_IFDIR | 0o755)
@@ -265,7 +270,7 @@ class Kernel:
         patches += state + list(extra)
         saved = []
         for m, name, val in patches:
-            saved.append((m, name, vars(m).get(name, _MISSING)))
+            saved.append((m, name, getattr(m, name, _MISSING)))
             setattr(m, name, val)
         if getattr(k.ctx, "symbolic", False):
             k.shadows.install(*MODS)
@@ -277,7 +282,7 @@ class Kernel:
                 k.shadows.uninstall()
             for m, name, old in reversed(saved):
                 if old is _MISSING:
-                    if name in vars(m):
+                    if hasattr(m, name):
                         delattr(m, name)
                 else:
                     setattr(m, name, old)
@@ -387,6 +392,35 @@ class OsProxy:
         raise oserr(errno.ENOENT, path)
 
     F_OK, R_OK, W_OK, X_OK = _os.F_OK, _os.R_OK, _os.W_OK, _os.X_OK
+    WNOHANG = _os.WNOHANG
+
+    def waitpid(self, pid, flags):
+        fn = getattr(self.k, "waitpid_fn", None)
+        if fn is None:
+            raise HarnessError("strict stub miss: os.waitpid")
+        return fn(pid, flags)
+
+    # wait-status macros over a possibly symbolic status word (bits/waitstatus.h)
+    @staticmethod
+    def WIFEXITED(st):
+        return (st & 0x7F) == 0
+
+    @staticmethod
+    def WEXITSTATUS(st):
+        return (st >> 8) & 0xFF
+
+    @staticmethod
+    def WIFSIGNALED(st):
+        low = st & 0x7F
+        return (low != 0) & (low != 0x7F) if isinstance(low, SymInt) else (low != 0 and low != 0x7F)
+
+    @staticmethod
+    def WTERMSIG(st):
+        return st & 0x7F
+
+    @staticmethod
+    def WIFSTOPPED(st):
+        return (st & 0xFF) == 0x7F
 
     def getpid(self):
         return 4242
